@@ -1144,7 +1144,9 @@ pub fn run(ctx: &Ctx) -> (CheckMeta, Acc) {
             }
         }
         if ctx.replay.as_ref().map(|r| r.history >= 1_000_000_000).unwrap_or(true) {
-            run_trio_histories(ctx, sh, acc, n_hist, steps, "C04");
+            if !ctx.pure_only {
+                run_trio_histories(ctx, sh, acc, n_hist, steps, "C04");
+            }
         }
     });
     let meta = CheckMeta {
